@@ -493,7 +493,7 @@ C04_PURE_PART = (G, "gosym_part", dict(name="c04_generators_pure", entry="intern
                                                        "cpp-embeds-the-validated-schema", "python-embeds-the-validated-schema", "matlab-embeds-the-validated-schema"),
                                        assumptions=["model: a !flags and an !enum definition whose three symbols carry a symbolic assignment of the values 1, 2, 4 (declared ascending, descending, mixed; "
                                                     "thorough: independent assignments), with or without explicit base, a record with optional / union / vector fields, an alias of a map, a protocol "
-                                                    "with a stream and a nullable union step",
+                                                    "with a stream and a nullable union step; unions whose cases are aliases (of a primitive, a vector, a record) as a stream item and as a record field",
                                                     "C++ = the types, protocols, binary and NDJSON writers (no HDF5, mocks, CMake, embedded headers); Python = python.Generate; MATLAB = matlab.Generate; "
                                                     "static files stubbed under gosym; the three backends run in all 6 orders on ONE resolved model, as one `yardl generate` does",
                                                     "the model as data = every list of it in declaration order (enum values, fields, cases, steps, definitions) and the engine's structural encoding/json of "
@@ -1190,6 +1190,7 @@ PARTS = {
         (CC, "c17_cc_blocks", dict()),   # the block layer of stream steps: ReadBlock / ReadBlocksIntoVector deliver the items written and leave (position, current_block_remaining_) in the state the generated reader's end-of-stream test (c01_cpp_proto_reader) relies on
     ],
     "C03": [
+        C04_PURE_PART,   # every backend of one `yardl generate` run embeds the same schema text: a stream written in one language is accepted by the reader of the other
         C02_CPP_RECORD_PART,   # a record is a JSON object in every backend (Python refuses null where C++ would write it)
         (PY, "c03_py_capacity", dict()),
         ("py_numpy", "c03_py_array_layouts", dict()),   # the bytes of an array do not depend on its memory layout (C / Fortran order, transposed or strided views)
